@@ -62,6 +62,38 @@ def detailToks (b : Bytes) : Option (List HandshakeSchema.Tok) :=
          | some ds => some (l ++ ds))
       | acc, _, _ => acc) (some [])
 
+/-- the values the schema gives to the occurrences of singular field `num` of `NebulaHandshakeDetails`
+(records with the schema's wire type only), in message order, formatted as in the answers. -/
+def occurrences (ts : List HandshakeSchema.Tok) (num : Nat) : List String :=
+  ts.filterMap (fun t =>
+    if t.num != num then none else
+    match t.val with
+    | .bytes b => if num == 1 then some (bytesToHex b) else none
+    | .varint v => if num == 1 then none else some (toString (if num == 5 then v else v % 2 ^ 32))
+    | _ => none)
+
+def singularFields : List (Nat × String × Nat) :=
+  [(1, "Cert", 1), (2, "InitiatorIndex", 2), (3, "ResponderIndex", 3), (5, "Time", 4), (8, "CertVersion", 5)]
+
+/-- proto3: a singular field that occurs more than once (inside one `Details`, or across occurrences of
+`Details`, which merge field-wise) has the value of its LAST occurrence.  `none` = respected. -/
+def repeatedNotLastWins (ts : List HandshakeSchema.Tok) (implHs : String) : Option String :=
+  if !implHs.startsWith "ok" then none else
+  let parts := implHs.splitOn " "
+  singularFields.findSome? (fun (num, name, idx) =>
+    let o := occurrences ts num
+    if o.length < 2 then none else
+    let want := o.getLastD ""
+    let got := parts.getD idx ""
+    if got == want then none else
+    some s!"bad repeated-field-not-last-wins field={name} occurrences={o.length} want={want} got={got}")
+
+def repTag (ts : List HandshakeSchema.Tok) : String :=
+  let c := occurrences ts 1
+  if c.length ≥ 2 then
+    (if c.dropLast.any (· != "-") then ":rep-cert-earlier-nonempty" else ":rep-cert-earlier-empty")
+  else if [2, 3, 5, 8].any (fun n => (occurrences ts n).length ≥ 2) then ":rep-varint" else ""
+
 def splitSemi (s : String) : List String := (s.splitOn " ; ").map (fun x => (x.trimAscii).toString)
 
 def step (s : Unit) (args : List String) (impl : String) : Unit × Out :=
@@ -112,12 +144,15 @@ def step (s : Unit) (args : List String) (impl : String) : Unit × Out :=
         if impl.startsWith "PANIC" then "bad unm-panic" else
         if wt && implHs.startsWith "ok" then "bad wrong-wiretype-accepted" else
         if oor && implHs.startsWith "ok" then "bad out-of-range-accepted" else
+        match (match dts with | some l => repeatedNotLastWins l implHs | none => none) with
+        | some v => v
+        | none =>
         match sp with
         | some _ => if implHs.startsWith "ok" && implHs != showSchema sp then s!"bad schema-disagree want={showSchema sp}" else "ok"
         | none => "ok"
       let tag :=
         match r, sp with
-        | .ok _, some _ => (if wt || oor then "unm:IMPOSSIBLE" else "unm:ok-both")
+        | .ok _, some _ => (if wt || oor then "unm:IMPOSSIBLE" else "unm:ok-both" ++ repTag (dts.getD []))
         | .ok _, none => "unm:ok-hs-only"
         | .errMessage, some _ => "unm:errmsg-schema-ok"
         | .errDetails, some _ => (if wt then "unm:wrong-wiretype" else if oor then "unm:out-of-range" else "unm:errdet-schema-ok")
